@@ -375,7 +375,10 @@ class Runner:
             property_failures_on_real_code=len(self.failures), broken=self.broken,
         )
         if self.exhaustive is not None:
-            cov["exhaustive"] = self.exhaustive
+            # the schema wants a boolean; a description of the enumerated space goes next to it
+            cov["exhaustive"] = bool(self.exhaustive)
+            if not isinstance(self.exhaustive, bool):
+                cov["exhaustive_space"] = str(self.exhaustive)
         cov.update(self.extra)
         ev = dict(property_id=self.prop, tier=self.tier, seed=self.seed, level="proof", coverage=cov,
                   assumptions=self.assumptions, wall_s=round(time.time() - self.t0, 2), violations=violations)
